@@ -33,6 +33,7 @@ EXTENDS ScalarTypes, Json, FiniteSets
 
 CONSTANTS Seed,     \* shifts the sample
           K,        \* one K-th of the non-core binary cases is printed
+          Rich,     \* 1: larger value subsets for the comparison / ring / binary function classes
           Part      \* "all" or one group class (to split large runs)
 
 VARIABLES ph, grp
@@ -60,8 +61,11 @@ TB == AllTypes \cup BaseTypes
 ValsOf == [T \in TB |-> SortedSeq({i \in 1..NG : Holds(T, G[i])})]
 
 \* subsets of the grid used by the operation classes (as index sets)
+MoreIf(S) == IF Rich = 1 THEN S ELSE {}
 CmpSet   == {1, 3, 4, 7, 17, 18, 19, 21, 25, 32, 39, 40, 41, 47, 49, 50, 53, 54, 55, 56}
+            \cup MoreIf({2, 9, 20, 24, 31, 33, 34, 36, 37, 51, 57, 59})
 RingSet  == {1, 2, 3, 4, 7, 9, 17, 18, 19, 24, 32, 39, 40, 41, 47, 53, 54, 56}
+            \cup MoreIf({5, 15, 20, 25, 31, 35, 38, 44, 49, 55, 57})
 MathSet  == {1, 2, 3, 4, 5, 6, 8, 41, 42, 43, 44, 45, 46, 48, 53, 54, 55, 56}
 MathXtra(op) == CASE op = "Log1pExp" -> {10, 12, 13, 14, 15, 16}       \* the branches -37, 18, 33.3
                   [] op \in {"Exp", "Sinh", "Cosh", "Tanh", "Logistic", "Sigmoid"} -> {10, 11, 12}
@@ -69,7 +73,7 @@ MathXtra(op) == CASE op = "Log1pExp" -> {10, 12, 13, 14, 15, 16}       \* the br
                   [] op \in {"Sqrt", "Log", "Log1p", "Lgamma"} -> {10, 15, 29}
                   [] op = "Gamma" -> {10}
                   [] OTHER -> {}
-Math2Set == {1, 2, 3, 4, 5, 6, 15, 21, 41, 42, 44, 54, 55, 56}
+Math2Set == {1, 2, 3, 4, 5, 6, 15, 21, 41, 42, 44, 54, 55, 56} \cup MoreIf({7, 8, 10, 43, 46, 53})
 Pick(T, S) == SortedSeq({i \in S : Holds(T, G[i])})
 CmpVals  == [T \in AllTypes |-> Pick(T, CmpSet)]
 RingVals == [T \in AllTypes |-> Pick(T, RingSet)]
@@ -185,7 +189,8 @@ EmitCmp(Ta) ==
 
 (* -- ring: Add Sub Mul Div Min Max ----------------------------------------- *)
 RingExp(op, R, v1, v2, x, y) ==
-  IF x.k = "idef" \/ y.k = "idef" THEN IDef
+  IF Cls(R) = "int" /\ op = "Div" /\ y = VZero THEN PanicRes
+  ELSE IF x.k = "idef" \/ y.k = "idef" THEN IDef
   ELSE IF op = "Min" THEN MinRes(x, y)
   ELSE IF op = "Max" THEN MaxRes(x, y)
   ELSE IF Cls(R) = "int" THEN IntRing(op, R, x, y)
@@ -297,7 +302,12 @@ EmitVec(op, R) ==
        \A i \in 1..Len(vs) : \A al \in alphas :
          LET n == Len(vs[i])
              second == IF op = "VdotV" THEN ValsAt(ws[i]) ELSE NoVec
-         IN Emit(VCase(op, R, ET, ValsAt(vs[i]), second, al, VTerm(VecExpTerm(op, n, RatOfV(al)))))
+             base == VCase(op, R, ET, ValsAt(vs[i]), second, al, VTerm(VecExpTerm(op, n, RatOfV(al))))
+         IN \* `dev`: what the code is known to compute instead (known finding Mnorm without the square root);
+            \* an observation that misses `exp` is that finding only if it equals `dev`
+            IF op = "Mnorm"
+            THEN Emit([base EXCEPT !.g = "vec"] @@ [dev |-> VTerm(KnownDeviation_Mnorm(<< <<X(1), X(2)>>, <<X(3), X(4)>> >>))])
+            ELSE Emit(base)
 
 (* -- conv / new: conversions and registry constructors ------------------------ *)
 EmitConv(T1) ==
